@@ -153,6 +153,36 @@ class C14(Check):
             exps.append({"kind": "corpus:" + m["file"], "include": [cid],
                          "files": [{"path": "pkg/app.py", "snippets": [r["idx"]], "layout": {}}, {"path": m["file"], "manifest": m["idx"]}],
                          "enum_seeds": [None, 3], "faults": "none", "sched": {"seed": 0, "policy": "fifo", "line_p": 0.0}})
+        # the store the fault-free run chooses is unwritable, a second store of another kind can take the dependency
+        names = {m["name"]: m for m in W.manifests()}
+        plain = ["req-plain", "pyproject-project-deps", "setuppy-multi", "setupcfg-multiline"]
+        rng = random.Random("c14-fallthrough")
+        r = G.pick_snippet(rng, "pixee:python/url-sandbox")
+        for a in plain:
+            for b in plain:
+                if names[a]["file"] == names[b]["file"]:
+                    continue
+                for fk in ("open-eacces", "open-erofs"):
+                    exps.append({"kind": "fallthrough", "include": ["pixee:python/url-sandbox"],
+                                 "files": [{"path": "pkg/app.py", "snippets": [r["idx"]], "layout": {}},
+                                           {"path": names[a]["file"], "manifest": names[a]["idx"]}, {"path": "sub/" + names[b]["file"] if names[b]["file"] != "setup.py" else "setup.py", "manifest": names[b]["idx"]}],
+                                 "enum_seeds": [None, None], "faults": "first", "fault_kind": fk, "fault_pick": 0,
+                                 "sched": {"seed": 0, "policy": "fifo", "line_p": 0.0}})
+        # several dependency-adding codemods in ONE run (same package twice, already declared package first, ...)
+        seqs = [["pixee:python/url-sandbox", "pixee:python/sandbox-process-creation", "pixee:python/harden-pickle-load"],
+                ["pixee:python/url-sandbox", "pixee:python/use-defusedxml"],
+                ["pixee:python/harden-pickle-load", "pixee:python/url-sandbox", "pixee:python/use-defusedxml"],
+                ["pixee:python/use-defusedxml", "pixee:python/flask-enable-csrf-protection"]]
+        for si, seq in enumerate(seqs):
+            for mn in ("req-plain", "req-has-security", "pyproject-project-deps", "pyproject-has-security", "setuppy-has-security",
+                       "setupcfg-has-security", "setupcfg-multiline", "req-has-defusedxml-other-version"):
+                files = []
+                for ci, cid in enumerate(seq):
+                    rr = G.pick_snippet(random.Random(f"c14-seq-{si}-{ci}"), cid)
+                    files.append({"path": f"pkg/m{ci}.py", "snippets": [rr["idx"]], "layout": {}})
+                files.append({"path": names[mn]["file"], "manifest": names[mn]["idx"]})
+                exps.append({"kind": "sequence", "include": seq, "files": files, "enum_seeds": [None, None], "faults": "none",
+                             "sched": {"seed": si, "policy": "fifo", "line_p": 0.0}})
         return exps
 
     def gen(self, rng, i, tier):
@@ -177,6 +207,8 @@ class C14(Check):
                 "sched": G.rand_sched(rng, 2)}
 
     def execute(self, exp, ctx):
+        if exp["kind"] == "sequence":
+            return self.execute_sequence(exp, ctx)
         world, meta = W.build_world({"files": exp["files"]})
         manifests = sorted(p for p, m in meta["files"].items() if m["kind"] == "manifest")
         plan = []
@@ -198,7 +230,48 @@ class C14(Check):
         second = ctx.run(dict(base, name="rerun", world=dict(world, files=files2), enum_seed=exp["enum_seeds"][1], faults=[]))
         return {"first": first, "second": second, "manifests": manifests, "orig": world["files"], "plan": plan, "meta": meta["files"]}
 
+    def execute_sequence(self, exp, ctx):
+        """batch run of several dependency-adding codemods vs the chain of single-codemod runs (reference)"""
+        world, meta = W.build_world({"files": exp["files"]})
+        manifests = sorted(p for p, m in meta["files"].items() if m["kind"] == "manifest")
+        base = {"hashseed": 0, "sched": exp["sched"], "enum_seed": exp["enum_seeds"][0]}
+
+        def argv(inc):
+            return ["<T>", "--output", "<O>/report.codetf", "--codemod-include", ",".join(inc)]
+
+        batch = ctx.run(dict(base, name="batch", world=world, argv=argv(exp["include"])))
+        files = world["files"]
+        chain = []
+        for cid in exp["include"]:
+            o = ctx.run(dict(base, name="chain:" + cid, world=dict(world, files=files), argv=argv([cid])))
+            chain.append(o)
+            files = W.apply_changes(files, o["changed"])
+        return {"batch": batch, "chain": chain, "chain_final": files, "orig": world["files"], "manifests": manifests, "meta": meta["files"],
+                "first": batch, "second": batch, "plan": []}
+
+    def oracle_sequence(self, exp, outcomes):
+        v = []
+        batch = outcomes["batch"]
+        names = [outcomes["meta"][p].get("name", p) for p in outcomes["manifests"]]
+        outcomes["_needed"] = any(o["changed"] for o in outcomes["chain"])
+        if batch["status"] != 0 or batch["exception"] or any(o["status"] != 0 or o["exception"] for o in outcomes["chain"]):
+            return [{"clause": "run-failed", "key": "C14:run-failed:sequence:" + "+".join(names), "detail": {"batch": [batch["status"], batch["exception"]]}}]
+        final_batch = W.apply_changes(outcomes["orig"], batch["changed"])
+        for p in outcomes["manifests"]:
+            a, b = final_batch.get(p), outcomes["chain_final"].get(p)
+            if a != b:
+                kind = p.rsplit("/", 1)[-1]
+                na = parse_manifest(kind, dec(a))[1] if a else []
+                nb = parse_manifest(kind, dec(b))[1] if b else []
+                missing = sorted(set(nb) - set(na))
+                extra = sorted(set(na) - set(nb))
+                v.append({"clause": "sequence-manifest-differs", "key": f"C14:sequence-manifest-differs:{'missing' if missing else 'other'}:{'+'.join(names)}",
+                          "detail": {"manifest": p, "missing_in_batch": missing, "extra_in_batch": extra, "codemods": exp["include"]}})
+        return v
+
     def oracle(self, exp, outcomes):
+        if exp["kind"] == "sequence":
+            return self.oracle_sequence(exp, outcomes)
         v = []
         first, second = outcomes["first"], outcomes["second"]
         cid = exp["include"][0]
@@ -267,8 +340,17 @@ class C14(Check):
                 okb, nb, _ = parse_manifest(p.rsplit("/", 1)[-1], dec(outcomes["orig"][p]))
                 if any(n in nb for n in need):
                     declared_somewhere = True
-            if "could not be added" not in desc.lower() and "unable" not in desc.lower() and "manually" not in desc.lower() and not declared_somewhere:
+            failed_notice = "unable to automatically add" in desc
+            success_notice = "automatically added this dependency" in desc
+            if success_notice:
+                add("report-claims-dependency-added", "+".join(sorted(mname(p) for p in manifests)) or "no-manifest", {"description_tail": desc[-300:]})
+            elif not failed_notice and not declared_somewhere:
                 add("no-failed-dependency-notice", "+".join(sorted(mname(p) for p in manifests)) or "no-manifest", {"description_tail": desc[-300:]})
+        # a changeset naming a manifest must correspond to bytes written to it
+        for r in (first["report"] or {}).get("results", []):
+            for cs in r.get("changeset", []):
+                if cs.get("path") in manifests and cs.get("path") not in written:
+                    add("changeset-for-unwritten-manifest", mname(cs["path"]), {"path": cs["path"]})
         # a faulted manifest must stay byte-identical
         for p in faulted:
             if p in first["changed"]:
@@ -279,6 +361,13 @@ class C14(Check):
         return bool(outcomes.get("_needed"))
 
     def shrink(self, exp):
+        if exp["kind"] == "sequence":
+            if len(exp["include"]) > 2:
+                for j in range(len(exp["include"])):
+                    c = copy.deepcopy(exp)
+                    del c["include"][j]
+                    yield c
+            return
         ms = [j for j, f in enumerate(exp["files"]) if "manifest" in f]
         if len(ms) > 1:
             for j in ms:
@@ -295,7 +384,7 @@ class C14(Check):
             yield c
 
     def sample(self, exp, outcomes):
-        return {"kind": exp["kind"], "codemod": exp["include"][0], "manifests": [outcomes["meta"][p].get("name") for p in outcomes["manifests"]],
+        return {"kind": exp["kind"], "codemod": exp["include"], "manifests": [outcomes["meta"][p].get("name") for p in outcomes["manifests"]],
                 "faults": outcomes["plan"], "first_changed": sorted(outcomes["first"]["changed"]), "second_changed": sorted(outcomes["second"]["changed"])}
 
 
